@@ -89,6 +89,16 @@ def check_option_exercise(self):
 '''
 
 
+# resampling the hourly option data: an interval of one minute (or finer) leaves the data alone; anything coarser is
+# resampled per instrument - never UP-sampled into bars that have no snapshot (the market is closed between snapshots)
+REF_DERIBIT_RESAMPLE = '''
+def _resample(self, freq):
+    if pd.Timedelta(freq) <= BASIC_INTERVAL:
+        return
+    self._data = self._data.groupby(level=1).resample(freq, level=0).first().swaplevel(1, 0)
+'''
+
+
 def exercise_shape(model, res):
     """Settlement = the reference procedure, as canonical per-position effect blocks (value numbering, no text matching):
     a position is touched iff now >= expiry; in-the-money puts (strike > underlying) are delivered with is_call False,
@@ -131,12 +141,8 @@ def effect_rule(model, res):
             res.find("R-EFFECT", f"DeribitOptionMarket.{op}", "write_func gate missing or not outermost", f.loc(),
                      f"{op} decorators are {f.decorators}; the hourly market must reject trades on bars where it is closed")
     # the gate itself: write_func rejects when not is_open (name-insensitive shape)
-    from ..rules.common import write_func_shape
-    sh = write_func_shape(model)
-    res.ob("R-EFFECT", "write_func rejects when the market is not open", sh["loc"], ok=sh["gate"])
-    if not sh["gate"]:
-        res.find("R-EFFECT", "broker.market.write_func", "closed-market gate changed", sh["loc"],
-                 "write_func no longer raises before the call when the instance's `is_open` is false")
+    from .base_refs import write_gate
+    write_gate(res, model, rule="R-EFFECT")
 
 
 def run(model, tier="quick"):
@@ -152,6 +158,14 @@ def run(model, tier="quick"):
     formula_check(res, model, "DeribitOptionMarket._is_open", REF_IS_OPEN, "open iff the bar lies on the hourly grid")
     effects_check(res, model, "DeribitOptionMarket.update", REF_UPDATE, "settlement runs only on open bars",
                   ["check_option_exercise"], opaque=["_is_open"])
+    effects_check(res, model, "DeribitOptionMarket._resample", REF_DERIBIT_RESAMPLE,
+                  "option data is resampled only for intervals coarser than the base interval (first snapshot of the bin)", [])
+    from .C15 import REF_SET_STATUS, REF_BASE_SET_STATUS
+    effects_check(res, model, "DeribitOptionMarket.set_market_status", REF_SET_STATUS,
+                  "per-bar status: the snapshot of the hour containing the bar, an empty book when that hour has no data",
+                  ["set_market_status"], opaque=["_is_open"])
+    effects_check(res, model, "Market.set_market_status", REF_BASE_SET_STATUS,
+                  "a market is open on a bar iff the bar is in its data index", [])
     effect_rule(model, res)
     res.floor("obligations", len(res.obligations), 11)
     from ..rules.fresh import fresh_rule
